@@ -483,6 +483,26 @@ func genSpecs(t *rapid.T, c *Case) {
 			nTarget++
 			paths := protogen.SortedPaths(c.Files[m.Dir])
 			cands := append(append([]string{}, paths...), dirsOf(paths)...)
+			// sibling directories where one name is a string prefix of the other (x/v1, x/v1beta1): both as --path
+			var sib [][2]string
+			ds := dirsOf(paths)
+			for _, a := range ds {
+				for _, b := range ds {
+					if a != b && strings.HasPrefix(b, a) && !under(a, b) {
+						sib = append(sib, [2]string{a, b})
+					}
+				}
+			}
+			if len(sib) > 0 && rapid.Bool().Draw(t, "siblingpaths") {
+				pr := sib[rapid.IntRange(0, len(sib)-1).Draw(t, "sibpair")]
+				spec.TargetPaths = []string{pr[0], pr[1]}
+				if rapid.Bool().Draw(t, "sibswap") {
+					spec.TargetPaths = []string{pr[1], pr[0]}
+				}
+				evid.R().Class("spec:sibling-prefix-paths")
+				c.Specs[m.Dir] = spec
+				continue
+			}
 			switch rapid.IntRange(0, 9).Draw(t, "specmode") {
 			case 0, 1, 2, 3: // everything
 			case 4, 5, 6, 7: // paths / excludes
